@@ -146,6 +146,10 @@ func genResp(rng *rand.Rand, tok string, status int, big bool) *respScript {
 		if s.Method == "HEAD" && rng.Intn(2) == 0 {
 			s.BodyLen = c03BodySizes[rng.Intn(len(c03BodySizes))] // advertised by Content-Length only
 		}
+		if s.Method != "HEAD" && status == 304 && rng.Intn(3) != 0 {
+			// a 304 may state the length of the representation it did not send (RFC 9110, 15.4.5)
+			s.Framing, s.BodyLen = "cl", 1+c03BodySizes[rng.Intn(len(c03BodySizes))]
+		}
 	}
 	s.body = tokBytes(tok, "c03", s.BodyLen)
 	if s.Framing == "chunked" {
@@ -538,6 +542,25 @@ func C03(r *core.Run) {
 		list = append(list, hs)
 	}
 	rng.Shuffle(len(list), func(i, j int) { list[i], list[j] = list[j], list[i] })
+	// two slow responses, issued first: one whose header block takes 17 s to come, one that pauses for 17 s in the middle of
+	// its body (longer than any read deadline a hop might put on "a request", shorter than the agent's own 60 s time-out)
+	for i := 0; i < 2; i++ {
+		ss := genResp(rng, fmt.Sprintf("s%dslow%d", r.Seed, i), []int{200, 404}[i], false)
+		for k := 0; ss.Method != "GET" || len(ss.Interim) > 0; k++ {
+			ss = genResp(rng, fmt.Sprintf("s%dslow%dx%d", r.Seed, i, k), []int{200, 404}[i], false)
+		}
+		ss.Framing, ss.BodyLen, ss.Chunks, ss.OneByte = "chunked", 300, []int{100, 200}, false
+		ss.body = tokBytes(ss.Tok, "c03", ss.BodyLen)
+		ss.DelayHdr, ss.DelayBody, ss.DelayRest, ss.DelayTrl = 0, 0, 0, 0
+		if i == 0 {
+			ss.DelayHdr = 17000
+			ss.Class += "|header-after-17s"
+		} else {
+			ss.DelayRest = 17000
+			ss.Class += "|17s-pause-mid-body"
+		}
+		list = append([]*respScript{ss}, list...)
+	}
 	mu.Lock()
 	for _, s := range list {
 		scripts[s.Tok] = s
